@@ -1221,6 +1221,26 @@ async def fault_families(ctx, r, newtag, *, check):
                 await check([sim], [data], handler)
 
 
+async def burst_families(ctx, r, newtag, *, check):
+    """However many calls are in flight: tens to hundreds of calls on one connection that complete while the
+    writer is paused (a slow reader), then the writer resumes; every call must still get its one reply."""
+    for n in (33, 40, 100, 150):
+        for order in ("forward", "shuffled"):
+            handler = Handler()
+            sim, data, tags = plain_sim(handler, newtag, n)
+            await asyncio.wait_for(settle(), TIMEOUT)
+            await sim.apply("b", data)
+            await sim.apply("p")
+            todo = list(tags)
+            if order == "shuffled":
+                r.shuffle(todo)
+            for t in todo:
+                await complete_if_pending(sim, (t, "r"))
+            await sim.apply("d")
+            await finish_all(r, [sim])
+            await check([sim], [data], handler)
+
+
 async def correspond_conn(ctx):
     r = ctx.rng("conn")
     st = ctx.stats
@@ -1918,9 +1938,89 @@ async def applied_after_disconnect(ctx, pid: str, collect=None) -> int:
     return n
 
 
+async def oracle_concurrent_callers(ctx):
+    """Several callers of ONE async client at once, payloads from tiny to larger than the transport buffer, the
+    transport pausing (`drain()` yields) at any of them: the bytes on the wire must be whole request frames, one
+    per caller, and each caller gets the reply that carries its own call id."""
+    r = ctx.rng("concurrent-callers")
+    for i in range(ctx.budget(30, 300)):
+        sim = ClientSim()
+        ncall = r.randint(2, 5)
+        sizes = [r.choice([0, 10, HIGH_WATER // 2, HIGH_WATER + 5, 3 * HIGH_WATER]) for _ in range(ncall)]
+        if i % 2 == 0:
+            sizes[r.randrange(ncall)] = 3 * HIGH_WATER  # at least one pauses the transport
+        if r.random() < 0.4:
+            sim.tr.pause()
+
+        async def fake_open(path, sim=sim):
+            return sim.reader, sim.writer
+
+        real = asyncio.open_unix_connection
+        asyncio.open_unix_connection = fake_open
+        try:
+            tasks = [asyncio.create_task(sim.client.call.proc(c, pad=b"p" * sizes[c])) for c in range(ncall)]
+            await asyncio.wait_for(settle(), TIMEOUT)
+            for _ in range(ncall + 2):
+                if sim.tr.paused:
+                    sim.tr.resume()
+                await asyncio.wait_for(settle(), TIMEOUT)
+        finally:
+            asyncio.open_unix_connection = real
+        ctx.stats.count("oracle:concurrent-callers")
+        ctx.stats.case(("concurrent-callers", tuple(sizes)), nontrivial=max(sizes) > HIGH_WATER)
+        problems = []
+        try:
+            frames, rest = parse_frames(bytes(sim.tr.data))
+        except Exception as exc:  # noqa: BLE001
+            frames, rest = [], b"?"
+            problems.append(f"the request stream does not parse: {exc!r}")
+        id_of = {}
+        for cid, body in frames:
+            try:
+                call = pickle.loads(body) if body is not None else None
+            except Exception as exc:  # noqa: BLE001
+                problems.append(f"frame {cid}: the body is not a pickled call ({type(exc).__name__})")
+                continue
+            if not isinstance(call, RPCCall) or call.name != "proc" or len(call.args) != 1 or \
+                    call.kwargs.get("pad") != b"p" * sizes[call.args[0]]:
+                problems.append(f"frame {cid}: not the request of one caller")
+                continue
+            if call.args[0] in id_of:
+                problems.append(f"caller {call.args[0]} appears in two frames")
+            id_of[call.args[0]] = cid
+        if rest:
+            problems.append(f"{len(rest)} trailing bytes that are not a frame")
+        if not problems and sorted(id_of) != list(range(ncall)):
+            problems.append(f"requests on the wire for callers {sorted(id_of)} of {ncall}")
+        if not problems:
+            order = list(id_of.items())
+            r.shuffle(order)
+            for caller, cid in order:
+                sim.reader.feed_data(R._encode_message(cid, R._encode_body(("reply-of", caller))))
+            await asyncio.wait_for(settle(), TIMEOUT)
+            for caller, t in enumerate(tasks):
+                got = (t.result() if t.done() and not t.cancelled() and t.exception() is None else
+                       ("pending" if not t.done() else repr(t.exception() if not t.cancelled() else "cancelled")))
+                if got != ("reply-of", caller):
+                    problems.append(f"caller {caller} got {got!r}")
+        for t in tasks:
+            if not t.done():
+                t.cancel()
+        sim.reader.feed_eof()
+        with contextlib.suppress(BaseException):
+            await asyncio.wait_for(sim.client.close(), TIMEOUT)
+        await asyncio.gather(*tasks, return_exceptions=True)
+        if problems:
+            ctx.finding(Finding(PID, "client-requests-interleaved" if any("parse" in p or "frame" in p for p in problems)
+                                else "client-pairing-wrong",
+                                f"{ncall} concurrent callers of one async client (payload sizes {sizes}): " + "; ".join(problems[:3]),
+                                {"sizes": sizes, "problems": problems[:8]}))
+
+
 async def search(ctx):
     r = ctx.rng("oracle")
     counts = {"connections": 0}
+    await oracle_concurrent_callers(ctx)
 
     async def check(sims, streams, handler):
         for sim in sims:
@@ -1931,6 +2031,7 @@ async def search(ctx):
     await run_conn_batch(ctx, r, ctx.budget(1200, 10000), check=check)
     await offset_family(ctx, r, TagSource(), check=check)
     await fault_families(ctx, r, TagSource(), check=check)
+    await burst_families(ctx, r, TagSource(), check=check)
     await applied_after_disconnect(ctx, PID)
     with debug_env(False):
         await oracle_director_names(ctx)
